@@ -428,6 +428,43 @@ func (h h6) Gen(prop, tier string, r *simrt.Rng) (any, simrt.Config) {
 		sc.MaxSimNs += c.StartOffsetNs
 		return c, sc
 	}
+	if prop != "C14" {
+		// whole-run properties (C01, C03, C05, C06, C07 …) on config-file runs: several stages of mixed modes on
+		// one pool manager, iterations that outlive their stage, cleanups, failures, cancellation, restart
+		h.genFileRun(c, r, tier)
+		failShare := simrt.Pick(r, 0.0, 0.1, 0.3)
+		if prop == "C07" || prop == "C01" {
+			failShare = simrt.Pick(r, 0.2, 0.5)
+		}
+		c.Prog.Iter = genIterPlans(r, 1+r.Intn(10), failShare, simrt.Pick(r, 5, 40, 120, 400), simrt.Pick(r, 0, 1, 3), allFailBehavs)
+		for i := range c.Prog.Iter {
+			if c.Prog.Iter[i].SleepNs < 2*ms {
+				c.Prog.Iter[i].SleepNs = 2*ms + int64(i+1)*1019
+			}
+			// an iteration that marks failure and then keeps running across the end of its stage
+			if b := c.Prog.Iter[i].Behav; b != bPass && !behavStops(b) && r.Intn(2) == 0 {
+				c.Prog.Iter[i].After = int64(simrt.Pick(r, 25, 60, 150, 400))*ms + 23
+			}
+		}
+		if r.Intn(2) == 0 {
+			for j, m := 0, 1+r.Intn(3); j < m; j++ {
+				cp := CleanupPlan{SleepNs: int64(r.Intn(3)) * 5 * ms}
+				if r.Intn(8) == 0 {
+					cp.Behav = simrt.Pick(r, bFail, bFailNow, bPanicErr)
+				}
+				c.Prog.SetupCleanups = append(c.Prog.SetupCleanups, cp)
+			}
+		}
+		c.Verbose = r.Intn(2) == 0
+		c.Metrics = r.Intn(2) == 0
+		c.WaitTimeoutNs = int64(simrt.Pick(r, 50, 300, 2000))*ms + odd(r)
+		if c.Runs == 1 && r.Intn(3) == 0 {
+			c.CancelAtNs = r.Int63n(c.File.TotalNs) + 1
+		}
+		sc = genSimCfg(r, true)
+		sc.MaxSimNs += c.StartOffsetNs
+		return c, sc
+	}
 	// ---- C14
 	c.MaxDurationNs = int64(simrt.Pick(r, 300, 600, 1100))*ms + 10*ms + odd(r)
 	switch r.Intn(8) {
@@ -611,6 +648,9 @@ func (h6) genFileRun(c *H1Cfg, r *simrt.Rng, tier string) {
 }
 
 func (h6) NonTrivial(prop string, env *Env, st simrt.Stats) bool {
+	if prop != "C14" && prop != "C15" {
+		return (h1{}).NonTrivial(prop, env, st)
+	}
 	if prop == "C15" {
 		return env.Cover["h6.plan_checked"] > 0
 	}
